@@ -313,6 +313,31 @@ func c06NestedLigature(r *run.Run, maxLen int) {
 		})
 }
 
+// c06FlagPairs: two top-level lookups applied one after the other, all pairs of lookup flags (incl. equal
+// flag words with different mark filtering sets): each lookup runs under its own flags.
+func c06FlagPairs(r *run.Run, maxLen int) {
+	alphabet := []glyph.ID{gen.GA, gen.GB, gen.GM, gen.GN, gen.GL}
+	lookups := map[bool][]int{false: {5, 7}, true: {2, 4}}
+	r.Explore(explore.Config{Name: "C06.flag-pairs", Deadline: r.PartDeadline(0.2)},
+		fmt.Sprintf("lists of two simple lookups applied in order: ALL pairs of lookup flags from the %d-entry flag menu x 2 x 2 lookups (GSUB ligatures / GPOS pair and mark attachment), GDEF with classes, attachment classes and two mark sets, on all glyph sequences of length <= %d over {A,B,M,N,L}", len(gen.Flags), maxLen),
+		func(c *explore.Ctx) {
+			gpos := c.Bool("gpos")
+			menu := gen.GsubSimple
+			if gpos {
+				menu = gen.GposSimple
+			}
+			f1 := gen.Flags[c.Choose(len(gen.Flags), "flags of the first lookup")]
+			f2 := gen.Flags[c.Choose(len(gen.Flags), "flags of the second lookup")]
+			l1 := menu[lookups[gpos][c.Choose(2, "first lookup")]]
+			l2 := menu[lookups[gpos][c.Choose(2, "second lookup")]]
+			ll := gtab.LookupList{gen.MakeLookup(l1.Type, f1, l1.Sub()), gen.MakeLookup(l2.Type, f2, l2.Sub())}
+			gd, _ := gen.Gdef(0)
+			desc := []string{"0: " + l1.Name + " " + f1.Name, "1: " + l2.Name + " " + f2.Name}
+			c.Sample(func() any { return desc })
+			compareShaping(c, ll, gd, []gtab.LookupIndex{0, 1}, gpos, alphabet, maxLen, "flag pairs: "+l1.Name, desc)
+		})
+}
+
 func init() {
 	Register("C06", func(r *run.Run) {
 		r.Rule = "lookup lists from the shared generator x ALL input sequences up to a length bound; library result compared with the token-list reference shaper; cases the specification + testcases sections 1-3 do not define are counted, not compared; non-trivial = lookup lists for which at least one compared sequence had a matching rule"
@@ -333,6 +358,7 @@ func init() {
 		c06Subtables(r, maxLen-1)
 		c06NestedContext(r, maxLen)
 		c06NestedLigature(r, maxLen+1)
+		c06FlagPairs(r, maxLen-1)
 		c06Simple(r, maxLen-1)
 		c06NestedFlags(r, maxLen-1)
 		c06Nested(r, maxLen, bound)
